@@ -341,8 +341,11 @@ static void gf2Inv(word b[], const word a[], const qr_o* f, void* stack)
 	if (gf2Deg(f) % B_PER_W == 0)
 	{
 		word* c = (word*)stack;
-		stack = c + f->n + 1;
-		ppInvMod(c, a, f->mod, f->n + 1, stack);
+		word* t = c + f->n + 1;
+		stack = t + f->n + 1;
+		// t <- a (в f->n + 1 словах)
+		wwCopy(t, a, f->n), t[f->n] = 0;
+		ppInvMod(c, t, f->mod, f->n + 1, stack);
 		ASSERT(c[f->n] == 0);
 		wwCopy(b, c, f->n);
 	}
@@ -352,7 +355,7 @@ static void gf2Inv(word b[], const word a[], const qr_o* f, void* stack)
 
 static size_t gf2Inv_deep(size_t n)
 {
-	return O_OF_W(n + 1) + ppInvMod_deep(n + 1);
+	return O_OF_W(2 * n + 2) + ppInvMod_deep(n + 1);
 }
 
 static void gf2Div(word b[], const word divident[], const word a[], 
@@ -364,8 +367,13 @@ static void gf2Div(word b[], const word divident[], const word a[],
 	if (gf2Deg(f) % B_PER_W == 0)
 	{
 		word* c = (word*)stack;
-		stack = c + f->n + 1;
-		ppDivMod(c, divident, a, f->mod, f->n + 1, stack);
+		word* t = c + f->n + 1;
+		word* t1 = t + f->n + 1;
+		stack = t1 + f->n + 1;
+		// t <- divident, t1 <- a (в f->n + 1 словах)
+		wwCopy(t, divident, f->n), t[f->n] = 0;
+		wwCopy(t1, a, f->n), t1[f->n] = 0;
+		ppDivMod(c, t, t1, f->mod, f->n + 1, stack);
 		ASSERT(c[f->n] == 0);
 		wwCopy(b, c, f->n);
 	}
@@ -375,7 +383,7 @@ static void gf2Div(word b[], const word divident[], const word a[],
 
 static size_t gf2Div_deep(size_t n)
 {
-	return O_OF_W(n + 1) + ppDivMod_deep(n + 1);
+	return O_OF_W(3 * n + 3) + ppDivMod_deep(n + 1);
 }
 
 /*
